@@ -298,6 +298,22 @@ pub fn alphabet(name: &str) -> Vec<Op> {
             Op::Add(b(var(0), var(0))),
             Op::Add(b(var(0), var(1))),
         ],
+        "SELFX" => vec![
+            // a class equated with a term that contains a SHIFTED copy of itself next to a sibling, plus the unions
+            // that later collapse the sibling's class (the redundancy then arrives through upward merging)
+            Op::Union(f(0, 1), b(var(1), f(2, 0))),
+            Op::Union(f(0, 1), b(var(0), f(1, 2))),
+            Op::Union(f(0, 1), b(f(1, 2), var(0))),
+            Op::Union(f(0, 1), b(h(1), f(1, 0))),
+            Op::Union(f(0, 1), u(f(1, 2))),
+            Op::Union(t3(0, 1, 2), b(var(0), t3(1, 2, 3))),
+            Op::Union(h(0), b(var(0), h(1))),
+            Op::Union(var(0), var(1)),
+            Op::Union(h(0), h(1)),
+            Op::Union(var(0), h(0)),
+            Op::Union(var(0), cc()),
+            Op::Add(b(var(0), f(0, 1))),
+        ],
         "SAME" => vec![
             // two different e-nodes of ONE class that become congruent through a later union of their
             // children: the class must gain a symmetry ...
@@ -317,6 +333,7 @@ pub fn alphabet(name: &str) -> Vec<Op> {
         "MICRO" => vec![
             Op::Union(t3(0, 1, 2), t3(1, 2, 0)),       // 3-cycle
             Op::Union(t3(0, 1, 2), t3(1, 0, 2)),       // transposition
+            Op::Union(t3(0, 1, 2), t3(0, 2, 1)),       // transposition that fixes the first slot
             Op::Union(t3(0, 1, 2), t3(0, 1, 3)),       // redundancy
             Op::Union(f(0, 1), f(1, 0)),               // symmetry
             Op::Union(f(0, 1), u(f(1, 0))),            // self reference
